@@ -9,6 +9,8 @@
 
    Events (times are ranks, see CesiumIter.tla; all fields always present):
      [ev |-> "layout", tid, stored]                      a new trace over this stored content
+     [ev |-> "grow", stored]                             commits returned while the iterator is open:
+                                                         the content every later command must see
      [ev |-> "cmd", c, t, target, b, chunk, view, frame, valid, ok, err]      ok = the call's return value
         c \in open setbounds seekfirst seeklast seekle seekge next prev nextauto prevauto
    An iterator that reported an Error() is `failed` until the next seek: nothing it returns
@@ -35,6 +37,19 @@ TLayout ==
   /\ valid' = FALSE /\ last' = "none" /\ run' = "off" /\ acc' = <<>>
   /\ viol' = {} /\ drift' = {} /\ tid' = E.tid /\ k' = 0 /\ failed' = FALSE
   /\ l' = l + 1
+
+\* commits of writers returned: the store grew under the open iterator (CesiumIter!GrowTo)
+TGrow ==
+  /\ More /\ E.ev = "grow"
+  /\ LET keep == \/ run = "first" /\ ReadIn(E.stored, bounds[1], view[2]) = acc
+                  \/ run = "last" /\ ReadIn(E.stored, view[1], bounds[2]) = acc
+     IN /\ run' = IF keep THEN run ELSE "off"
+        /\ acc' = IF keep THEN acc ELSE <<>>
+  /\ stored' = E.stored
+  /\ UNCHANGED <<chunk, bounds, view, frame, valid, last, failed, tid>>
+  /\ viol' = {}
+  /\ drift' = V("GrowOnlyAdds", \A i \in DOMAIN stored : \E j \in DOMAIN E.stored : E.stored[j] = stored[i])
+  /\ k' = k + 1 /\ l' = l + 1
 
 \* the observation becomes the next state
 Observe == /\ view' = E.view /\ frame' = E.frame /\ valid' = E.valid /\ bounds' = E.b
@@ -125,7 +140,7 @@ TBwd ==
                    \cup (IF last = "seek" THEN V("StartAtSeekBwd", AdjBwd) ELSE {})
                    \cup V("ValidIffData", ValidIffData)
 
-TNext == TLayout \/ TSetBounds \/ TSeek \/ TFailedStep \/ TFwd \/ TBwd
+TNext == TLayout \/ TGrow \/ TSetBounds \/ TSeek \/ TFailedStep \/ TFwd \/ TBwd
 TSpec == TInit /\ [][TNext]_tvars
 
 Report == (viol = {} /\ drift = {}) \/ PrintT(<<"VIOL", ToJson([tid |-> tid, k |-> k, viol |-> viol, drift |-> drift])>>)
